@@ -109,6 +109,13 @@ typename dis_interval<Number>::list_intervals_t dis_interval<Number>::normalize(
   for (unsigned int i = 0; i < l.size(); ++i) {
     ikos::interval<Number> intv = l[i];
 
+    if (intv.is_top()) {
+      // must be checked before the duplicate test: prev is
+      // initialized to top to mean "no previous interval".
+      is_bottom = false;
+      return typename dis_interval<Number>::list_intervals_t();
+    }
+
     if (prev == intv) {
       CRAB_LOG("disint", crab::outs() << "-- Normalize: duplicate"
                                       << "\n");
